@@ -106,6 +106,17 @@ def edge_dominates(fn, src, dst, target):
         return target in reachable_from(entry)
     return False
 
+_REP = {'sge': ('slt', True), 'sle': ('sgt', True), 'uge': ('ult', True), 'ule': ('ugt', True), 'ne': ('eq', True)}
+
+def cond_key(fn, c):
+    """(key, flipped): two comparisons of the same operands with opposite predicates (`x >= 0` here, `x < 0` there) are one
+    condition read with opposite sense"""
+    d = fn.defs.get(c)
+    if d is not None and d.op == 'icmp' and len(d.ops) >= 2:
+        pred, flip = _REP.get(d.pred, (d.pred, False))
+        return ('icmp', pred, d.ops[0], d.ops[1]), flip
+    return ('ssa', c), False
+
 def correlated_conditions(fn):
     """i1 values that decide more than one conditional branch and are computed outside every loop: such a value is the same
     each time it is tested, so a path that took its true edge once takes the true edge at the other branches as well
@@ -117,17 +128,22 @@ def correlated_conditions(fn):
     for b in fn.order:
         t = b.insts[-1]
         if t.op == 'br' and len(t.targets) == 2 and t.ops and t.targets[0] != t.targets[1]:
-            uses.setdefault(t.ops[0], []).append(b)
+            uses.setdefault(cond_key(fn, t.ops[0])[0], []).append((b, t.ops[0]))
     inloop = set()
     for h, body in natural_loops(fn).items():
         inloop |= set(body)
     out = set()
-    for c, bs in uses.items():
+    for k_, bs in uses.items():
         if len(bs) < 2:
             continue
-        d = fn.defs.get(c)
-        if d is not None and d.bb not in inloop:
-            out.add(c)
+        ok = True
+        for b, c in bs:
+            d = fn.defs.get(c)
+            if d is None or d.bb in inloop:
+                ok = False
+            # (a comparison outside every loop runs once per call; values it reads from a finished loop are final)
+        if ok:
+            out.add(k_)
     fn._cache[key] = out
     return out
 
@@ -169,8 +185,10 @@ def infeasible_edges(fn):
 
 def _edge_truth(fn, src, dst, conds):
     t = src.insts[-1]
-    if t.op == 'br' and len(t.targets) == 2 and t.ops and t.ops[0] in conds and t.targets[0] != t.targets[1]:
-        return t.ops[0], fn.blocks[t.targets[0]] is dst
+    if t.op == 'br' and len(t.targets) == 2 and t.ops and t.targets[0] != t.targets[1]:
+        k_, flip = cond_key(fn, t.ops[0])
+        if k_ in conds:
+            return k_, (fn.blocks[t.targets[0]] is dst) != flip
     return None
 
 def feasible_reachable(fn, start, avoid_edges=(), known=(), avoid_blocks=()):
